@@ -593,11 +593,17 @@ func ValidLayout(archs []Arch) (ValidVerdict, string) {
 			}
 		}
 	}
-	if off > math.MaxUint32 {
-		band = true // every offset fits but the total size does not: "every size ... representable" is ambiguous
+	// off is now the file size. Slot offsets are computed in the format's 32-bit offset arithmetic, so the
+	// last slot must END within 2^32 bytes; a file of exactly 2^32 bytes still has addressable slots but a
+	// size that needs 33 bits ("every size ... representable"): that single value is left undecided.
+	if off > 1<<32 {
+		return Invalid, "file size exceeds 2^32 bytes: the last slots are not addressable with 32-bit offsets"
+	}
+	if off == 1<<32 {
+		band = true
 	}
 	if band {
-		return DontCare, "file size exceeds 32 bits while all offsets fit"
+		return DontCare, "file size is exactly 2^32 bytes"
 	}
 	return Valid, ""
 }
